@@ -14,7 +14,7 @@ def _eq_attrs(x, y, attrs):
 def _number(x):
     """
     a numpy number as the python number it holds, a numpy datetime64 / timedelta64 as the pandas Timestamp / Timedelta (or NaT) it holds.
-    np.float64(2**53) == 2**53 + 1 since numpy rounds the int to a float, while python compares an int and a float exactly; np.float32('nan') is not a float.
+    np.float64(2**53) == 2**53 + 1 since numpy rounds the int to a float, while python compares an int and a float exactly; np.float32('nan') is not a float, np.longdouble('nan') neither.
     numpy compares times after casting units: np.datetime64('2020-01-01') == date(2020,1,1) and == pd.Timestamp('2020-01-01') although these two differ, 
     np.timedelta64(1,'D') == 1 and == np.timedelta64(24,'h'), which is == 24; np.datetime64('NaT') is not even equal to itself while pd.NaT is a single object
     """
@@ -27,7 +27,19 @@ def _number(x):
             return pd.Timestamp(x) if isinstance(x, np.datetime64) else pd.Timedelta(x)
         except (ValueError, OverflowError): # out of pandas' bounds, or a year/month duration
             return x
-    return x.item() if isinstance(x, np.number) else x
+    if not isinstance(x, np.number):
+        return x
+    res = x.item()
+    if isinstance(res, np.complexfloating) and res.imag == 0 and not np.isnan(res.real):
+        res = res.real
+    if isinstance(res, np.floating): 
+        # np.longdouble (and np.clongdouble): item() hands the numpy scalar back, and numpy rounds an int to its mantissa, 2**64 == np.longdouble(2**64) == 2**64 + 1. 
+        # A whole value is that int, a value a float holds is that float; any other (not whole, so equal to no int) numpy compares exactly with a float or its like
+        if np.isfinite(res) and res == np.floor(res):
+            return int(res)
+        if np.isnan(res) or type(res)(float(res)) == res:
+            return float(res)
+    return res
 
 
 def _cells(x):
